@@ -5,6 +5,7 @@ import SV.Protocol
 import SV.Spec.Iso13616
 import SV.Spec.Iso9362
 import SV.Proofs.IbanSound
+import SV.Spec.National
 namespace SV.Spec
 
 /-- Boolean form of `ibanDefect` (by error-class name). -/
@@ -28,6 +29,16 @@ def bicDefectB (iso : List Str) (k : String) (strict : Bool) (c : Str) : Option 
   | "InvalidCountryCode" => some (structOk && !iso.contains ((c.drop 4).take 2))
   | _ => none
 
+/-- The published national rule, for the countries whose rule is stated in `SV.Spec.National`
+    (prefix lengths as in `SV.Props.C06.live_iso_default` etc.). -/
+def nationalB (cc : String) (b : Str) : Option Bool :=
+  match cc with
+  | "BA" => some (mod97_98 b 14) | "ME" => some (mod97_98 b 16) | "MK" => some (mod97_98 b 13)
+  | "PT" => some (mod97_98 b 19) | "RS" => some (mod97_98 b 16) | "SI" => some (mod97_98 b 13)
+  | "TL" => some (mod97_98 b 17) | "MR" => some (mod97_97 b 21) | "TN" => some (mod97_97 b 18)
+  | "BE" => some (belgium b)
+  | _ => none
+
 /-- `spec.*` operations. -/
 def dispatch (X : Ctx) (op : String) (args : List String) : Option String :=
   match op, args with
@@ -43,6 +54,12 @@ def dispatch (X : Ctx) (op : String) (args : List String) : Option String :=
     let b ← parseStr b
     match X.T.lookup cc with
     | some e => pure ("ok " ++ showBool (fits e b))
+    | none => pure "none"
+  | "spec.national", [cc, b] => do
+    let cc ← parseStr cc
+    let b ← parseStr b
+    match nationalB (String.ofList (cc.map Char.ofNat)) b with
+    | some v => pure ("ok " ++ showBool v)
     | none => pure "none"
   | "spec.bic_valid", [strict, c] => do
     let strict ← parseBool strict
